@@ -1,3 +1,4 @@
+import Pxv.Model.Borrow
 import Pxv.Model.Generate
 import Pxv.Thm.C02
 /-!
@@ -84,3 +85,51 @@ example : (generate (exBuild 0) .update exFS).exit = 0 ∧
     (generate (exBuild 0) .update exFS).fs.get "sdk/Cargo.toml" = some ⟨[1], 3⟩ := by decide
 
 end Pxv.Gen
+
+/-! ### `complex_borrow_check` terminates once the call graph stops changing -/
+namespace Pxv.CG
+
+/-- **with the repair**: once a round neither clones nor changes the number of parked nodes, the loop ends within six
+    more rounds, whatever state it is in (in particular after earlier successful clones). -/
+theorem complex_loop_terminates (c : Ctl) (n : Nat) : Ctl.stable true n 6 c = none := by
+  obtain ⟨s, f, p⟩ := c
+  by_cases hn : n = 0
+  · subst hn; simp [Ctl.stable, Ctl.next]
+  · have hn' : (n == 0) = false := by simp [hn]
+    by_cases hp : p = some n
+    · subst hp
+      cases s <;> cases f <;> simp [Ctl.stable, Ctl.next, hn']
+    · have hp' : (p == some n) = false := by simp [hp]
+      cases s <;> cases f <;> simp [Ctl.stable, Ctl.next, hn', hp']
+
+/-- **without it** (the code as it was): after one successful clone (`flag = true`) a call graph that still has parked
+    nodes and nothing left to clone keeps the loop alive forever, alternating between parking and cloning. -/
+theorem complex_loop_diverged (n : Nat) (hn : n ≠ 0) (k : Nat) :
+    ∃ c', Ctl.stable false n k { strat := .park, flag := true, prev := some n } = some c' ∧ c'.flag = true ∧
+      c'.prev = some n ∧ (c'.strat = .park ∨ c'.strat = .clone) := by
+  have hn' : (n == 0) = false := by simp [hn]
+  induction k with
+  | zero => exact ⟨_, rfl, rfl, rfl, Or.inl rfl⟩
+  | succ k ih =>
+    -- unfold one round at the END of the run: `stable (k+1) c = stable k c >>= next`
+    have step : ∀ (k : Nat) (c : Ctl), Ctl.stable false n (k + 1) c = (Ctl.stable false n k c).bind (fun d => d.next false n false) := by
+      intro k
+      induction k with
+      | zero => intro c; simp [Ctl.stable]
+      | succ k ihk =>
+        intro c
+        show (c.next false n false).bind (Ctl.stable false n (k + 1)) =
+          ((c.next false n false).bind (Ctl.stable false n k)).bind (fun d => d.next false n false)
+        cases h : c.next false n false with
+        | none => rfl
+        | some d => exact ihk d
+    obtain ⟨c', h1, h2, h3, h4⟩ := ih
+    rw [step, h1]
+    obtain ⟨s, f, p⟩ := c'
+    simp only at h2 h3 h4
+    subst h2; subst h3
+    rcases h4 with h4 | h4 <;> subst h4
+    · exact ⟨{ strat := .clone, flag := true, prev := some n }, by simp [Ctl.next, hn'], rfl, rfl, Or.inr rfl⟩
+    · exact ⟨{ strat := .park, flag := true, prev := some n }, by simp [Ctl.next, hn'], rfl, rfl, Or.inl rfl⟩
+
+end Pxv.CG
